@@ -28,7 +28,24 @@ float nondet_float(void);
 double nondet_double(void);
 
 #define SHIM_ASSERT(c, msg) __CPROVER_assert((c), msg)
+/* ghost: allocations sized by input data must stay below this bound (set by the spec, e.g. the file size) */
+extern unsigned long g_alloc_bound;
+void *malloc(unsigned long);
+void *memset(void *, int, unsigned long);
 
+/* push_back: reallocation gives new storage; the old elements are NOT copied (their values become unconstrained):
+ * an over-approximation that is sound for obligations that do not depend on element values.  With
+ * SHIM_VEC_REALLOC_ALWAYS every push_back reallocates (writes then only ever hit fresh memory, which keeps loop frame
+ * conditions small); otherwise only a full vector reallocates. */
+#ifdef SHIM_VEC_REALLOC_ALWAYS
+#define VEC_PUSH_BODY(T) SHIM_ASSERT(v->size < ((unsigned long)1 << 40), "shim.vector.size_sane"); \
+      { unsigned long nc = v->size + 1; T *nd = (T *)malloc(nc * sizeof(T)); __CPROVER_assume(nd != 0); v->data = nd; v->cap = nc; } \
+      v->data[v->size] = x; v->size = v->size + 1;
+#else
+#define VEC_PUSH_BODY(T) if (v->size >= v->cap) { SHIM_ASSERT(v->size < ((unsigned long)1 << 40), "shim.vector.size_sane"); \
+      unsigned long nc = v->size * 2 + 1; T *nd = (T *)malloc(nc * sizeof(T)); __CPROVER_assume(nd != 0); v->data = nd; v->cap = nc; } \
+      v->data[v->size] = x; v->size = v->size + 1;
+#endif
 /* ---- std::vector<T> : concrete array, symbolic size; capacity must be provided by the precondition ---- */
 #define VEC_T(T, M) struct vec_##M { T *data; unsigned long size; unsigned long cap; };
 #define VEC_F(T, M) \
@@ -36,9 +53,15 @@ double nondet_double(void);
   static inline T *vec_##M##_at_checked(struct vec_##M *v, unsigned long i) { if (!(i < v->size)) { __exc = EXC_out_of_range; return v->data; } return &v->data[i]; } \
   static inline T *vec_##M##_back(struct vec_##M *v) { SHIM_ASSERT(v->size > 0, "shim.vector.back.nonempty"); return &v->data[v->size - 1]; } \
   static inline T *vec_##M##_front(struct vec_##M *v) { SHIM_ASSERT(v->size > 0, "shim.vector.front.nonempty"); return &v->data[0]; } \
-  static inline void vec_##M##_push_back(struct vec_##M *v, T x) { SHIM_ASSERT(v->size < v->cap, "shim.vector.capacity_provided_by_precondition"); v->data[v->size] = x; v->size = v->size + 1; } \
+  static inline void vec_##M##_push_back(struct vec_##M *v, T x) { VEC_PUSH_BODY(T) } \
   static inline void vec_##M##_pop_back(struct vec_##M *v) { SHIM_ASSERT(v->size > 0, "shim.vector.pop_back.nonempty"); v->size = v->size - 1; } \
-  static inline void vec_##M##_clear(struct vec_##M *v) { v->size = 0; }
+  static inline void vec_##M##_clear(struct vec_##M *v) { v->size = 0; } \
+  static inline void vec_##M##_resize(struct vec_##M *v, unsigned long n) { \
+    SHIM_ASSERT(n <= g_alloc_bound, "shim.alloc.bounded_by_input"); \
+    if (n > v->cap) { SHIM_ASSERT(v->size == 0, "shim.vector.growing_resize_of_nonempty_vector_not_modelled"); \
+      T *nd = (T *)malloc(n * sizeof(T)); __CPROVER_assume(nd != 0); memset(nd, 0, n * sizeof(T)); v->data = nd; v->cap = n; } \
+    else if (n > v->size) { SHIM_ASSERT(0, "shim.vector.growing_resize_within_capacity_not_modelled"); } \
+    v->size = n; }
 
 #define OPT_T(T, M) struct opt_##M { _Bool has; T val; };
 #define OPT_F(T, M) \
